@@ -386,6 +386,8 @@ impl ThreadPool {
     {
         let job = Box::new(f);
         self.sender.send(Message::NewJob(job)).unwrap();
+        #[cfg(varlink_rust_verif)]
+        verif::probe("enqueued", self.num_busy(), self.workers.len());
         if ((self.num_busy() + 1) >= self.workers.len()) && (self.workers.len() <= self.max_workers)
         {
             self.workers.push(Worker::new(
@@ -393,6 +395,8 @@ impl ThreadPool {
                 Arc::clone(&self.num_busy),
             ));
         }
+        #[cfg(varlink_rust_verif)]
+        verif::probe("executed", self.num_busy(), self.workers.len());
     }
 
     pub fn num_busy(&self) -> usize {
@@ -426,17 +430,27 @@ impl Worker {
 
             match message {
                 Message::NewJob(job) => {
+                    #[cfg(varlink_rust_verif)]
+                    verif::probe("dequeued", *num_busy.read().unwrap(), 0);
                     {
                         let mut num_busy = num_busy.write().unwrap();
                         *num_busy += 1;
                     }
+                    #[cfg(varlink_rust_verif)]
+                    verif::probe("start", *num_busy.read().unwrap(), 0);
                     job.call_box();
+                    #[cfg(varlink_rust_verif)]
+                    verif::probe("finished", *num_busy.read().unwrap(), 0);
                     {
                         let mut num_busy = num_busy.write().unwrap();
                         *num_busy -= 1;
                     }
+                    #[cfg(varlink_rust_verif)]
+                    verif::probe("idle", *num_busy.read().unwrap(), 0);
                 }
                 Message::Terminate => {
+                    #[cfg(varlink_rust_verif)]
+                    verif::probe("terminate", *num_busy.read().unwrap(), 0);
                     break;
                 }
             }
@@ -444,6 +458,44 @@ impl Worker {
 
         Worker {
             thread: Some(thread),
+        }
+    }
+}
+
+/// Verification hooks (only with `--cfg varlink_rust_verif`): probe events of the worker pool
+/// dispatched to an installable callback (which may block to force a schedule), and a thin
+/// public wrapper to drive the private pool without sockets.
+#[cfg(varlink_rust_verif)]
+pub mod verif {
+    use std::sync::RwLock;
+
+    type Callback = Box<dyn Fn(&'static str, usize, usize) + Send + Sync>;
+    static PROBE: RwLock<Option<Callback>> = RwLock::new(None);
+
+    pub fn set_probe(cb: Option<Callback>) {
+        *PROBE.write().unwrap() = cb;
+    }
+
+    pub(super) fn probe(event: &'static str, a: usize, b: usize) {
+        if let Some(cb) = PROBE.read().unwrap().as_ref() {
+            cb(event, a, b);
+        }
+    }
+
+    pub struct Pool(super::ThreadPool);
+
+    impl Pool {
+        pub fn new(initial_worker: usize, max_workers: usize) -> Pool {
+            Pool(super::ThreadPool::new(initial_worker, max_workers))
+        }
+        pub fn execute<F: FnOnce() + Send + 'static>(&mut self, f: F) {
+            self.0.execute(f)
+        }
+        pub fn num_busy(&self) -> usize {
+            self.0.num_busy()
+        }
+        pub fn num_workers(&self) -> usize {
+            self.0.workers.len()
         }
     }
 }
